@@ -18,6 +18,29 @@ CHECKS = {
              "functions (cross-checked against TLC on the rational fragment on every run); tolerance 1e-9 relative.",
         technique="TLA+ spec (Formak.tla) + TLC exhaustive/simulation; spec->code replay of behaviours into the Python model",
     ),
+    "C10": dict(
+        category="model_checking",
+        text="ManagedFilter.tla models the runtime over the free monoid of filter calls on an integer time grid; TLC proves the "
+             "plan theorem (direction, bound, sum, emptiness) for all from/to in -40..40 and 8 max_dt values and checks the "
+             "tick invariants exhaustively; every single tick of the small grid and thousands of simulated histories are "
+             "replayed into runtime.py and into ManagedFilter.h (recording Impl, 4 control x calibration combinations) on a "
+             "dyadic time grid where the issued step sequence must equal the plan exactly.",
+        design_ref="DESIGN.md section 4 C10",
+        note="Trusted: recording stand-in filters; g++ 12; the dyadic grid argument (all float time arithmetic exact). "
+             "Decimal (non-representable) step sizes are covered by the trace-validation part (PlanOK).",
+        technique="TLA+ spec (ManagedFilter.tla) + TLC exhaustive/simulation; spec->code replay into Python and C++ runtimes",
+    ),
+    "C11": dict(
+        category="model_checking",
+        text="Same specification: Tick folds readings in the order given, holds at the last reading, reports without holding; "
+             "TLC checks exhaustively (<=2 ticks x <=2 readings x 7 time points) that reading-less ticks never influence "
+             "later returns (ghost run), that refused ticks change nothing and that the held time only moves to reading "
+             "timestamps; behaviours are replayed into both runtimes and the complete call sequences (with the control "
+             "each step was given) compared; statically refused calls are covered by negative compile tests.",
+        design_ref="DESIGN.md section 4 C11",
+        note="Trusted: recording stand-in filters (free monoid), g++ 12 as the judge of the negative compile tests.",
+        technique="TLA+ spec (ManagedFilter.tla) + TLC; spec->code replay of tick histories into Python and C++ runtimes",
+    ),
 }
 
 NOT_YET = "check not built yet (work in progress; see DESIGN.md section 8 build order)"
